@@ -8,12 +8,14 @@ import copy
 import model
 
 
-def ddmin_list(items, test_with, many=None):
+def ddmin_list(items, test_with, many=None, batch=16):
     """Classic ddmin: returns a sub-list of items for which test_with(list) is
     True, trying to make it small.  test_with must be True for `items`.
     many(list_of_lists) -> list[bool] evaluates candidates in parallel; the
     first passing candidate in list order is taken, so the result does not
-    depend on which finished first."""
+    depend on which finished first.  Candidates are built a batch at a time
+    (a megabyte input has a million items: all complements at once do not fit
+    in memory) and the granularity is capped for very long lists."""
     items = list(items)
     if many is None:
         def many(cands):
@@ -24,6 +26,7 @@ def ddmin_list(items, test_with, many=None):
                 if ok:
                     break
             return out + [False] * (len(cands) - len(out))
+    max_n = len(items) if len(items) <= 20000 else 64
     n = 2
     while len(items) >= 1:
         if len(items) == 1:
@@ -31,17 +34,25 @@ def ddmin_list(items, test_with, many=None):
                 items = []
             break
         size = max(1, len(items) // n)
-        chunks = [items[i : i + size] for i in range(0, len(items), size)]
-        cands = [[x for cj, ch in enumerate(chunks) if cj != ci for x in ch] for ci in range(len(chunks))]
-        res = many(cands)
-        hit = next((i for i, ok in enumerate(res) if ok), None)
-        if hit is not None:
-            items = cands[hit]
-            n = max(n - 1, 2)
-        else:
-            if size == 1:
+        starts = list(range(0, len(items), size))
+        hit = None
+        for b0 in range(0, len(starts), batch):
+            part = starts[b0 : b0 + batch]
+            cands = [items[:st] + items[st + size :] for st in part]
+            res = many(cands)
+            k = next((i for i, ok in enumerate(res) if ok), None)
+            if k is not None:
+                hit = cands[k]
                 break
-            n = min(len(items), n * 2)
+            del cands
+        if hit is not None:
+            items = hit
+            n = max(n - 1, 2)
+            max_n = len(items) if len(items) <= 20000 else 64
+        else:
+            if size == 1 or n >= max_n:
+                break
+            n = min(len(items), max_n, n * 2)
     return items
 
 
